@@ -151,6 +151,14 @@ func (txn *Txn) columnAt(columnName string) (*column, bool) {
 	return column, true
 }
 
+// none empties the selection but keeps its length: Clear() would truncate it to zero
+// words, after which a Union has nowhere to add rows.
+func (txn *Txn) none() {
+	for i := range txn.index {
+		txn.index[i] = 0
+	}
+}
+
 // With applies a logical AND operation to the current query and the specified index.
 func (txn *Txn) With(columns ...string) *Txn {
 	txn.initialize()
@@ -160,7 +168,7 @@ func (txn *Txn) With(columns ...string) *Txn {
 				dst.And(src)
 			})
 		} else {
-			txn.index.Clear()
+			txn.none()
 		}
 	}
 	return txn
@@ -251,7 +259,7 @@ func (txn *Txn) WithValue(column string, predicate func(v interface{}) bool) *Tx
 	txn.initialize()
 	c, ok := txn.columnAt(column)
 	if !ok {
-		txn.index.Clear()
+		txn.none()
 		return txn
 	}
 
@@ -273,7 +281,7 @@ func (txn *Txn) WithFloat(column string, predicate func(v float64) bool) *Txn {
 	txn.initialize()
 	c, ok := txn.columnAt(column)
 	if !ok || !c.IsNumeric() {
-		txn.index.Clear()
+		txn.none()
 		return txn
 	}
 
@@ -289,7 +297,7 @@ func (txn *Txn) WithInt(column string, predicate func(v int64) bool) *Txn {
 	txn.initialize()
 	c, ok := txn.columnAt(column)
 	if !ok || !c.IsNumeric() {
-		txn.index.Clear()
+		txn.none()
 		return txn
 	}
 
@@ -305,7 +313,7 @@ func (txn *Txn) WithUint(column string, predicate func(v uint64) bool) *Txn {
 	txn.initialize()
 	c, ok := txn.columnAt(column)
 	if !ok || !c.IsNumeric() {
-		txn.index.Clear()
+		txn.none()
 		return txn
 	}
 
@@ -321,7 +329,7 @@ func (txn *Txn) WithString(column string, predicate func(v string) bool) *Txn {
 	txn.initialize()
 	c, ok := txn.columnAt(column)
 	if !ok || !c.IsTextual() {
-		txn.index.Clear()
+		txn.none()
 		return txn
 	}
 
